@@ -53,7 +53,10 @@ DataFor(P) == [s |-> S(P), h |-> H(P), h2 |-> H(<<"LT", "i", "GT">>), hr |-> HTM
 
 \* sethtmls / sethtmlmap: the carrier is assigned into an element of a Go []template.HTML / map[string]template.HTML
 \* and read back from there (string data must not become trusted on the way: an error or escaped output)
-Steps == {"let", "catL", "catR", "catRawR", "catRawL", "catHtmlR", "arridx", "arrall", "hashidx", "fnid", "fnemit", "goid", "par", "sethtmls", "sethtmlmap"}
+Steps == {"let", "catL", "catR", "catRawR", "catRawL", "catHtmlR", "arridx", "arrall", "hashidx", "fnid", "fnemit", "goid", "par", "sethtmls", "sethtmlmap",
+          \* selfapp: an array holding the carrier, appended to itself (printed: every element twice);
+          \* htmlparam: handed to a Go helper whose parameter type is template.HTML
+          "selfapp", "htmlparam"}
 \* a step turns carrier expression e into [pre: statements to put before, e: the new carrier]
 ApplyStep(st, i, e) ==
   LET vn == "v" \o Digit(i)  fn == "f" \o Digit(i) IN
@@ -70,6 +73,8 @@ ApplyStep(st, i, e) ==
     [] st = "fnemit"  -> [pre |-> <<Let(fn, FnLit(<<"q">>, <<Text(<<"{">>), Emit(Id("q")), Text(<<"}">>)>>))>>, e |-> Call(fn, <<e>>)]
     [] st = "goid"    -> [pre |-> <<>>, e |-> Call("id", <<e>>)]
     [] st = "par"     -> [pre |-> <<>>, e |-> Par(e)]
+    [] st = "selfapp" -> [pre |-> <<Let(vn, Arr(<<e, Str(<<"m">>), Str(<<"n">>)>>))>>, e |-> Par(Bin("+", Id(vn), Id(vn)))]
+    [] st = "htmlparam" -> [pre |-> <<>>, e |-> Call("boldh", <<e>>)]
     [] st = "sethtmls" -> [pre |-> <<Code(IdxAssign(Id("hs2"), IntL(0), e))>>, e |-> Idx(Id("hs2"), IntL(0))]
     [] st = "sethtmlmap" -> [pre |-> <<Code(IdxAssign(Id("hm"), Str(<<"k">>), e))>>, e |-> Idx(Id("hm"), Str(<<"k">>))]
 
@@ -129,13 +134,21 @@ RECURSIVE KindChars(_, _)
 KindChars(ps, kind) == IF ps = <<>> THEN <<>> ELSE (IF Head(ps).k = kind THEN Head(ps).s ELSE <<>>) \o KindChars(Tail(ps), kind)
 Occurrences(p, s) == Cardinality({i \in 0..(Len(s) - Len(p)) : SubSeq(s, i + 1, i + Len(p)) = p})
 HardSpecials == {"LT", "GT", "APOS", "QUOT"}
+RECURSIVE Without(_, _)
+Without(s, sub) == IF Len(s) < Len(sub) THEN s
+                   ELSE IF SubSeq(s, 1, Len(sub)) = sub THEN Without(SubSeq(s, Len(sub) + 1, Len(s)), sub)
+                   ELSE <<Head(s)>> \o Without(Tail(s), sub)
+RECURSIVE Dup(_)
+Dup(ss) == IF ss = <<>> THEN 1 ELSE (IF Head(ss) = "selfapp" THEN 2 ELSE 1) * Dup(Tail(ss))
+NDup == Dup(steps)
 TaintTheorem ==
   res.k = "out" =>
     LET raws == KindChars(res.pieces, "raw")
         escs == KindChars(res.pieces, "esc") IN
     IF Trusted(start)
-      THEN Occurrences(P, raws) = 1 /\ Occurrences(P, escs) = 0        \* verbatim, exactly once, never escaped
-      ELSE \A i \in 1..Len(raws) : raws[i] \notin HardSpecials           \* data never reaches the output raw
+      THEN Occurrences(P, raws) = NDup /\ Occurrences(P, escs) = 0     \* verbatim, exactly once (per copy made by selfapp), never escaped
+      ELSE LET rs == Without(raws, <<"LT", "i", "GT">>) IN                \* (h2, the trusted HTML a step may append, is not the payload)
+           \A i \in 1..Len(rs) : rs[i] \notin HardSpecials               \* data never reaches the output raw
 
 Expect(r) == CASE r.k = "out" -> [k |-> "out", pieces |-> r.pieces, log |-> r.log]
                [] r.k = "err" -> [k |-> "err", w |-> r.w, log |-> r.log]
